@@ -634,4 +634,3 @@ func cutsOf(chunks []int, start, total int) []int {
 	}
 	return out
 }
-
